@@ -221,30 +221,51 @@ func main() {
 	for i := 0; i < 5000 && len(pl.Processes()) > 0; i++ { // the server's start-up probe connection is torn down asynchronously
 		time.Sleep(time.Millisecond)
 	}
+	questions := func() uint64 { v, _ := g4lib.StatusUint("Questions"); return v }
+	open := func(rt string) (route, error) {
+		if rt == "inproc" {
+			return &inproc{g4lib.NewPSess(e)}, nil
+		}
+		return openSrv(srv)
+	}
+	readMe := item{Kind: "own-uservar-read", Stmts: []string{"SELECT @me"}}
+	setMe := func(sid int64) item {
+		return item{Kind: "own-uservar-set", Stmts: []string{fmt.Sprintf("SET @me = %d", sid)}}
+	}
+	qcost := map[string]map[string]uint64{} // route -> item kind -> increments of the global Questions counter when run alone
+	questionsReliable := true
 	caches0 := e.E.MemoryManager.NumCaches()
 	conn0, _ := g4lib.StatusUint("Threads_connected")
 	cal := map[string]*calib{"inproc": {map[string]string{}, map[string]bool{}}, "server": {map[string]string{}, map[string]bool{}}}
 	usable := map[string][]int{}
 	for _, rt := range []string{"inproc", "server"} {
 		var results [2]map[string]string
+		var qd [2]map[string]uint64
 		for pass := 0; pass < 2; pass++ {
-			var ro route
-			if rt == "inproc" {
-				ro = &inproc{g4lib.NewPSess(e)}
-			} else {
-				c, err := openSrv(srv)
-				if err != nil {
-					r.Floor(false, "could not open a server connection: "+err.Error())
-					r.Finish()
-				}
-				ro = c
+			q0 := questions()
+			ro, err := open(rt)
+			if err != nil {
+				r.Floor(false, "could not open a session: "+err.Error())
+				r.Finish()
 			}
 			results[pass] = map[string]string{}
-			for _, it := range items {
+			qd[pass] = map[string]uint64{"(open)": questions() - q0}
+			for _, it := range append([]item{setMe(ro.sid()), readMe}, items...) {
+				q0 = questions()
 				results[pass][it.Kind] = ro.run(it)
+				qd[pass][it.Kind] = questions() - q0
 			}
+			q0 = questions()
 			ro.close()
 			waitGone([]int64{ro.sid()})
+			qd[pass]["(close)"] = questions() - q0
+		}
+		qcost[rt] = qd[0]
+		for k, v := range qd[0] {
+			if qd[1][k] != v {
+				questionsReliable = false
+				r.Extra("questions-cost-unstable."+rt+"."+k, fmt.Sprint(v, " vs ", qd[1][k]))
+			}
 		}
 		for i, it := range items {
 			a, b := results[0][it.Kind], results[1][it.Kind]
@@ -318,90 +339,115 @@ func main() {
 	}
 	var mmMu sync.Mutex
 	var mismatches []mismatch
+	segments := 2
 	for rep := 0; rep < reps; rep++ {
-		var routes []route
-		for i := 0; i < nIn; i++ {
-			p := g4lib.NewPSess(e)
-			p.Redact = i%2 == 1
-			routes = append(routes, &inproc{p})
-		}
-		for i := 0; i < nSrv; i++ {
-			c, err := openSrv(srv)
-			if err != nil {
-				r.Inconclusive("server-connect")
-				continue
-			}
-			routes = append(routes, c)
-		}
 		var wg sync.WaitGroup
+		var idMu sync.Mutex
+		var ids []int64
+		var expectedQ uint64
+		timeouts := false
+		qBefore := questions()
 		start := make(chan struct{})
-		for si, ro := range routes {
+		for si := 0; si < nIn+nSrv; si++ {
+			rt := "inproc"
+			if si >= nIn {
+				rt = "server"
+			}
 			wg.Add(1)
-			go func(si int, ro route) {
+			go func(si int, rt string) {
 				defer wg.Done()
 				rnd := r.Rand(fmt.Sprintf("storm-%d", rep), si)
-				rt := ro.name()
 				c := cal[rt]
 				idx := usable[rt]
-				me := item{Kind: "own-uservar", Stmts: []string{fmt.Sprintf("SET @me = %d", ro.sid())}}
-				ro.run(me)
-				readMe := item{Kind: "own-uservar", Stmts: []string{"SELECT @me"}}
+				var myQ uint64
+				defer func() {
+					idMu.Lock()
+					expectedQ += myQ
+					idMu.Unlock()
+				}()
 				<-start
-				done := 0
-				for done < perSession {
-					perm := rnd.Perm(len(idx))
-					for _, k := range perm {
-						if done >= perSession {
-							break
-						}
-						done++
-						if done%16 == 0 {
-							got := ro.run(readMe)
-							r.Eval(1)
-							if lastValue(got) != fmt.Sprint(ro.sid()) {
-								r.Violation("isolation:user-variable-of-another-session:"+rt, map[string]any{"session": ro.sid(), "SELECT @me": got})
+				for seg := 0; seg < segments; seg++ {
+					// connect and disconnect inside the storm: AddConnection / RemoveConnection run concurrently too
+					ro, err := open(rt)
+					if err != nil {
+						r.Inconclusive("server-connect")
+						idMu.Lock()
+						timeouts = true
+						idMu.Unlock()
+						return
+					}
+					if p, ok := ro.(*inproc); ok {
+						p.p.Redact = si%2 == 1
+					}
+					idMu.Lock()
+					ids = append(ids, ro.sid())
+					idMu.Unlock()
+					r.Count("sessions."+rt, 1)
+					myQ += qcost[rt]["(open)"] + qcost[rt]["(close)"]
+					ro.run(setMe(ro.sid()))
+					myQ += qcost[rt]["own-uservar-set"]
+					done := 0
+					for done < perSession/segments {
+						perm := rnd.Perm(len(idx))
+						for _, k := range perm {
+							if done >= perSession/segments {
+								break
 							}
-						}
-						it := items[idx[k]]
-						got := ro.run(it)
-						r.Count("statements."+rt, int64(len(it.Stmts)))
-						if strings.Contains(got, "TIMEOUT") {
-							r.Inconclusive("watchdog:" + it.Kind)
-							continue
-						}
-						if !c.stable[it.Kind] {
-							r.Count("items.executed-not-compared", 1)
-							if p := bad(got); strings.HasPrefix(p, "PANIC:") {
+							done++
+							if done%16 == 0 {
+								got := ro.run(readMe)
+								myQ += qcost[rt]["own-uservar-read"]
 								r.Eval(1)
-								r.Violation("concurrent-"+core.Clip(p, 100), map[string]any{"route": rt, "item": it, "result": core.Clip(got, 2000)})
+								if lastValue(got) != fmt.Sprint(ro.sid()) {
+									r.Violation("isolation:user-variable-of-another-session:"+rt, map[string]any{"session": ro.sid(), "SELECT @me": got})
+								}
 							}
-							continue
-						}
-						r.Eval(1)
-						r.Distinct(rt + "|" + it.Kind)
-						if got != c.base[it.Kind] {
-							mmMu.Lock()
-							mismatches = append(mismatches, mismatch{rt, idx[k], got, ro.sid(), rep})
-							mmMu.Unlock()
-						} else if rep == 0 && si == 0 && done <= 3 {
-							r.Sample(map[string]any{"route": rt, "item": it.Kind, "statements": it.Stmts, "compared": "sorted canonical result under concurrency == result alone", "result": core.Clip(got, 200)})
+							it := items[idx[k]]
+							got := ro.run(it)
+							myQ += qcost[rt][it.Kind]
+							r.Count("statements."+rt, int64(len(it.Stmts)))
+							if strings.Contains(got, "TIMEOUT") {
+								r.Inconclusive("watchdog:" + it.Kind)
+								idMu.Lock()
+								timeouts = true
+								idMu.Unlock()
+								continue
+							}
+							if !c.stable[it.Kind] {
+								r.Count("items.executed-not-compared", 1)
+								if p := bad(got); strings.HasPrefix(p, "PANIC:") {
+									r.Eval(1)
+									r.Violation("concurrent-"+core.Clip(p, 100), map[string]any{"route": rt, "item": it, "result": core.Clip(got, 2000)})
+								}
+								continue
+							}
+							r.Eval(1)
+							r.Distinct(rt + "|" + it.Kind)
+							if got != c.base[it.Kind] {
+								mmMu.Lock()
+								mismatches = append(mismatches, mismatch{rt, idx[k], got, ro.sid(), rep})
+								mmMu.Unlock()
+							} else if rep == 0 && si == 0 && done <= 3 {
+								r.Sample(map[string]any{"route": rt, "item": it.Kind, "statements": it.Stmts, "compared": "sorted canonical result under concurrency == result alone", "result": core.Clip(got, 200)})
+							}
 						}
 					}
+					ro.close()
 				}
-			}(si, ro)
+			}(si, rt)
 		}
 		close(start)
 		wg.Wait()
-		var ids []int64
-		for _, ro := range routes {
-			ids = append(ids, ro.sid())
-			ro.close()
-		}
-		r.Count("sessions", int64(len(routes)))
 		// quiescence
 		if !waitGone(ids) {
 			r.Inconclusive("watchdog:connections-not-torn-down")
 			continue
+		}
+		if questionsReliable && !timeouts {
+			r.Eval(1)
+			if got := questions() - qBefore; got != expectedQ {
+				r.Violation("status:Questions-counter-lost-or-extra-increments", map[string]any{"rep": rep, "increments_expected_from_alone_costs": expectedQ, "increments_observed": got})
+			}
 		}
 		// every mismatch is re-examined alone: an item that also varies when nothing else runs (20 fresh
 		// runs) is unstable by itself and says nothing about concurrency.
